@@ -19,7 +19,7 @@ ORACLE = ('for every data (non-formula) Ref/RefList cell, in user and metadata t
 ASSUMPTIONS = ['removal bundles contain only removal operations, so the expected value of a reference cell is its '
                'previous value minus removed rows', 'summary-table group-by reference columns mirror their source and '
                'are compared like any other data cell only when the summary row survives with the same id']
-BUDGET = {'quick': dict(examples=480, shards=16, max_seconds=55),
+BUDGET = {'quick': dict(examples=1100, shards=16, max_seconds=75),
           'thorough': dict(examples=16000, shards=16, max_seconds=1800)}
 SHRINK_BUDGET = {'quick': 60, 'thorough': 400}
 
